@@ -72,6 +72,21 @@ struct RefHolder {
   RefHolder(const RefHolder&) = delete;
 };
 
+// unbounded logical buffer: the structure is followed by room for kUnboundedCap elements in one allocation
+template <class T>
+struct UBHolder {
+  void* mem;
+  T& v;
+  static void* alloc() {
+    using E = std::remove_reference_t<decltype(std::declval<T&>().data[0])>;
+    return calloc(1, sizeof(T) + sizeof(E) * vt::kUnboundedCap);
+  }
+  UBHolder() : mem(alloc()), v(*new (mem) T()) {}
+  UBHolder(const UBHolder&) = delete;
+  ~UBHolder() { free(mem); }
+  T& subject() { return v; }
+};
+
 template <class Rig, class T, class H = Holder<T>>
 WOut run_writer(void* const* objs, size_t n, size_t cap) {
   WOut o;
@@ -145,7 +160,7 @@ template <class T, class H = Holder<T>>
 TypeOps make_ops() {
   TypeOps t;
   t.name = Br<T>::name();
-  if (!std::is_same<H, Holder<T>>::value) t.name = "reference_wrapper<" + t.name + ">";
+  if (std::is_same<H, RefHolder<T>>::value) t.name = "reference_wrapper<" + t.name + ">";
   t.sch = Br<T>::sch();
   t.sch.name = t.name;
   constexpr int caps = Caps<T>::v;
